@@ -366,10 +366,39 @@ def gen_E(rng):
             "seeds": [rng.randrange(1 << 30) for _ in range(3)]}
 
 
+def gen_E2(rng):
+    """intrinsic dimension STRICTLY below target_dimension (the property says "at most"): the extra retained
+    eigenvalue of the landmark Gram matrix is zero up to rounding (finding F42)"""
+    r = rng.randint(1, 2)
+    d = r + rng.randint(1, 2)
+    n = rng.randint(max(8, d + 4), 18)
+    pts = gen_euclid(rng, n, r, r + 1)
+    lo = max(3.0 / n, (d + 2) / n)
+    return {"mode": "E2", "method": "lmds", "N": n, "d": d, "r": r, "ratio": rng.uniform(lo, 1.0), "pts": pts,
+            "seeds": [rng.randrange(1 << 30) for _ in range(2)]}
+
+
 def gen_ratio_one(rng, method):
     r = rng.randint(1, 3)
     n = rng.randint(max(6, r + 3), 16)
-    if method == "lmds" and rng.random() < 0.4:
+    if method == "lisomap" and rng.random() < 0.3:
+        # shortest-path metric of a random weighted tree (+ a few chords): indefinite Gram matrix
+        INF = 10 ** 9
+        D = [[0 if i == j else INF for j in range(n)] for i in range(n)]
+        for i in range(1, n):
+            j = rng.randrange(i)
+            D[i][j] = D[j][i] = rng.choice([1, 1, 2, 9])
+        for _ in range(rng.randint(0, 3)):
+            i, j = rng.sample(range(n), 2)
+            D[i][j] = D[j][i] = min(D[i][j], rng.choice([1, 2, 9]))
+        for k in range(n):
+            for i in range(n):
+                for j in range(n):
+                    D[i][j] = min(D[i][j], D[i][k] + D[k][j])
+        dist = [[float(v) for v in row] for row in D]
+        pts = None
+        r = rng.randint(1, 3)
+    elif method == "lmds" and rng.random() < 0.4:
         # a non-Euclidean symmetric metric is fine for the ratio = 1 clause (guarded by the spectrum)
         dist, _ = gen_metric(rng, "l1", n)
         dist = [[float(v) for v in row] for row in dist]
@@ -885,6 +914,58 @@ def spectrum_ok(Bmat, d, positive_only=True, gap=1e-3, by_magnitude=False):
     return True
 
 
+F42_SIG = "F42-lmds-null-eigenvalue-division"
+F43_SIG = "F43-lisomap-ratio-one-selects-by-magnitude"
+
+
+def eval_E2(ctx, exe, mexe, cases, st):
+    """Landmark MDS on Euclidean data of intrinsic dimension r < target_dimension"""
+    if not cases:
+        return
+    registered = any(e.get("signature") == F42_SIG for e in ctx._known_db)
+    lines, meta = [], []
+    for c in cases:
+        dist = euclid_dist(c["pts"])
+        for seed in c["seeds"]:
+            lines.append(impl_line(api("lmds", c["N"], c["d"], c["ratio"], seed, 0, dist)))
+            meta.append((c, seed, dist))
+    impl = run_impl(ctx, exe, lines)
+    for (c, seed, dist), res in zip(meta, impl):
+        st.evals += 1
+        st.count("E2_lmds_r%d_d%d" % (c["r"], c["d"]))
+        n, d, r = c["N"], c["d"], c["r"]
+        rc = jsonable(dict(c, seeds=[seed]))
+        perm, Y, problem = parse_api(res, n, d)
+        if perm is None or sorted(perm) != list(range(n)) or res["crashed"]:
+            if res["crashed"]:
+                ctx.violation(rc, "Landmark MDS (intrinsic dimension %d < target_dimension %d): %s" % (
+                    r, d, crash_why(res)))
+            continue
+        lm = perm[:int(n * c["ratio"])]
+        if len(lm) < 2 or int_rank([[a - b for a, b in zip(c["pts"][x], c["pts"][lm[0]])] for x in lm[1:]]) != r:
+            st.skip("E2_landmarks_do_not_span")
+            continue
+        sub = [[dist[a][b] for b in lm] for a in lm]
+        ev = jacobi_eigenvalues(center_gram([[v * v for v in row] for row in sub]))
+        if ev[-r] < 1e-6 * ev[-1]:
+            st.skip("E2_ill_conditioned_landmark_gram")
+            continue
+        dmax = max(v for row in dist for v in row)
+        if Y is not None:
+            err = max(abs(math.dist(Y[a], Y[b]) - dist[a][b]) for a in range(n) for b in range(n))
+            problem = None if err <= 1e-5 * dmax * (ev[-1] / ev[-r]) else (
+                "pairwise distances off by up to %.3g (largest input distance %.3g)" % (err, dmax))
+        if problem:
+            why = ("Landmark MDS on Euclidean data of intrinsic dimension %d < target_dimension %d with spanning "
+                   "landmarks: %s — the retained null eigenvalue is used as a divisor in triangulate()" % (r, d, problem))
+            if registered:
+                ctx.violation(dict(rc, landmarks=lm), why, signature=F42_SIG)
+            else:
+                ctx.note("OPEN F42 (patch proposed, not registered yet, not counted as a verdict): " + why[:300])
+        else:
+            st.nontrivial(["E2", c["pts"], lm, d])
+
+
 def eval_E(ctx, exe, mexe, cases, st):
     """Landmark MDS end to end on Euclidean data of intrinsic dimension d, several seeds per data set"""
     if not cases:
@@ -984,9 +1065,13 @@ def eval_E1(ctx, exe, mexe, cases, st):
         n, d = c["N"], c["d"]
         rc = jsonable(c)
         B0 = center_gram([[v * v for v in row] for row in c["dist"]])
-        if not spectrum_ok(B0, d, by_magnitude=(c["method"] == "lisomap")):
+        if not spectrum_ok(B0, d):
             st.skip("E1_spectrum_guard_" + c["method"])
             continue
+        # Landmark Isomap (dense) selects the d largest eigenvalues of B B^T, i.e. by MAGNITUDE: when a negative
+        # eigenvalue of the geodesic Gram matrix is among the d largest in magnitude the ratio = 1 clause fails
+        # by construction of the algorithm (finding F43, see ratio_one_lisomap_partial)
+        magnitude_case = c["method"] == "lisomap" and not spectrum_ok(B0, d, by_magnitude=True)
         perm, Y, p1 = parse_api(impl[2 * i], n, d)
         _, Z, p2 = parse_api(impl[2 * i + 1], n, d)
         if p2:
@@ -1001,10 +1086,22 @@ def eval_E1(ctx, exe, mexe, cases, st):
         scale = max(1.0, max(abs(v) for v in flat(Z)))
         ps_lines.append("PS %d %d %s %s %s" % (n, d, tok(1e-7 * scale), " ".join(tok(v) for v in flat(Y)),
                                                 " ".join(tok(v) for v in flat(Z))))
-        ps_idx.append(rc)
-        st.nontrivial(["E1", c["method"], c["dist"], perm])
-    for rc, po in zip(ps_idx, run_model(ctx, mexe, ps_lines)):
+        ps_idx.append((rc, magnitude_case))
+        if not magnitude_case:
+            st.nontrivial(["E1", c["method"], c["dist"], perm])
+    f43 = any(e.get("signature") == F43_SIG for e in ctx._known_db)
+    for (rc, magnitude_case), po in zip(ps_idx, run_model(ctx, mexe, ps_lines)):
         if po.get("PS") != ["1"]:
+            if magnitude_case:
+                st.count("E1_lisomap_negative_eigenvalue_selected")
+                why = ("Landmark Isomap with landmark_ratio = 1 differs from Isomap by more than column signs: the "
+                       "geodesic Gram matrix has a negative eigenvalue among the %d largest in magnitude and the dense "
+                       "branch selects eigenvalues of B B^T (squares)" % rc["d"])
+                if f43:
+                    ctx.violation(rc, why, signature=F43_SIG)
+                else:
+                    ctx.note("OPEN F43 (not registered, not counted as a verdict): " + why)
+                continue
             ctx.violation(rc, "with landmark_ratio = 1 the landmark method does not coincide with its non-landmark "
                           "counterpart modulo column signs (simple, positive leading spectrum): %s" % po)
 
@@ -1081,7 +1178,7 @@ def budgets(ctx, scale=1):
     return {"S": (60 if q else 400) * scale, "R": (100 if q else 1500) * scale, "T": (48 if q else 500) * scale,
             "I": (16 if q else 200) * scale, "E": (12 if q else 120) * scale,
             "E1_lmds": (10 if q else 80) * scale, "E1_lisomap": (8 if q else 60) * scale,
-            "V": (30 if q else 300) * scale}
+            "V": (30 if q else 300) * scale, "E2": (8 if q else 80) * scale}
 
 
 def generate(ctx, rng, b):
@@ -1090,7 +1187,8 @@ def generate(ctx, rng, b):
              "E": [gen_E(rng) for _ in range(b["E"])],
              "E1": [gen_ratio_one(rng, "lmds") for _ in range(b["E1_lmds"])] +
                    [gen_ratio_one(rng, "lisomap") for _ in range(b["E1_lisomap"])],
-             "V": [f21_case()] + [gen_V(rng) for _ in range(b["V"])]}
+             "V": [f21_case()] + [gen_V(rng) for _ in range(b["V"])],
+             "E2": [gen_E2(rng) for _ in range(b["E2"])]}
     # boundary cases aimed at the case splits of the proofs
     cases["S"] += [{"mode": "S", "N": 47, "ratio": 3.0 / 47, "reps": 2, "seed": 1},
                    {"mode": "S", "N": 3, "ratio": 1.0, "reps": 2, "seed": 2},
@@ -1106,7 +1204,7 @@ def generate(ctx, rng, b):
 
 def evaluate_all(ctx, exe, mexe, cases, st):
     for key, fn in (("S", eval_S), ("R", eval_R), ("T", eval_T), ("I", eval_I), ("E", eval_E), ("E1", eval_E1),
-                    ("V", eval_V)):
+                    ("V", eval_V), ("E2", eval_E2)):
         t0 = ctx.elapsed()
         fn(ctx, exe, mexe, cases.get(key, []), st)
         st.times[key] = round(st.times.get(key, 0) + ctx.elapsed() - t0, 1)
@@ -1116,7 +1214,7 @@ def corpus_cases(ctx):
     out = {}
     for name, c in ctx.corpus():
         c = revive(c.get("case", c))
-        key = c.get("mode") if c.get("mode") in ("S", "R", "T", "I", "E", "E1", "V") else None
+        key = c.get("mode") if c.get("mode") in ("S", "R", "T", "I", "E", "E1", "V", "E2") else None
         if key:
             out.setdefault(key, []).append(c)
     return out
@@ -1138,7 +1236,7 @@ def build(ctx):
     from concurrent.futures import ThreadPoolExecutor
     with ThreadPoolExecutor(max_workers=3) as pool:
         f1 = pool.submit(ctx.cpp, "harness/c11.cpp", extra=["-O0", "-g0"])
-        f2 = pool.submit(ctx.cpp, "harness/c11.cpp", name="c11_fib", defines=["TAPKEE_USE_FIBONACCI_HEAP"],
+        f2 = pool.submit(ctx.cpp, "harness/c11.cpp", name="fibheap_c11", defines=["TAPKEE_USE_FIBONACCI_HEAP"],
                          extra=["-O0", "-g0"])
         f3 = pool.submit(ctx.extract)
         exe, fexe, mexe = f1.result(), f2.result(), f3.result()
@@ -1164,7 +1262,7 @@ def run(ctx):
         # own output first, so a genuine violation turns into a replayable input
         evaluate_all(ctx, exe, mexe, generate(ctx, rng, budgets(ctx, 4)), st)
     samples = []
-    for key in ("S", "R", "T", "I", "E", "E1", "V"):
+    for key in ("S", "R", "T", "I", "E", "E1", "V", "E2"):
         for c in cases.get(key, [])[:1]:
             s = jsonable(c)
             if "dist" in s:
@@ -1197,7 +1295,7 @@ def replay(ctx, case):
     st = Stats()
     c = revive(case)
     mode = c.get("mode")
-    key = {"S": "S", "R": "R", "T": "T", "I": "I", "E": "E", "E1": "E1", "V": "V"}.get(mode)
+    key = mode if mode in ("S", "R", "T", "I", "E", "E1", "V", "E2") else None
     if key is None:
         print("replay: unknown case mode %r" % mode)
         return 3
